@@ -236,7 +236,10 @@ def run_model(model, M, tier, seed, wdir, extra_behaviours=None):
     T = M[tier]
     binpath, binhash, build_s = build_bin(M["bin"])
     spec_hash = hashlib.sha256()
+    mods = {mc["module"] for mc in M.get("mc", [])} | {M["trace"], model, "BigInt", "MC_" + model}
     for fn in sorted(os.listdir(SPEC)):
+        if fn.rsplit(".", 1)[0] not in mods:
+            continue
         spec_hash.update(fn.encode())
         spec_hash.update(open(os.path.join(SPEC, fn), "rb").read())
     spec_hash.update(open(os.path.abspath(__file__), "rb").read())
